@@ -28,7 +28,7 @@ pub fn specs() -> Vec<PropSpec> {
     vec![
         PropSpec {
             id: "C01",
-            parts: &[("c01", 480, 6000)],
+            parts: &[("c01", 480, 6000), ("net", 64, 1500), ("netfaults", 96, 3000)],
             level: "exploration",
             tags: &["C01"],
             rule: "Each evaluation is one seeded history of 15-45 API \
@@ -46,7 +46,7 @@ pub fn specs() -> Vec<PropSpec> {
         },
         PropSpec {
             id: "C02",
-            parts: &[("c02", 480, 6000)],
+            parts: &[("c02", 480, 6000), ("netfaults", 64, 2000)],
             level: "exploration",
             tags: &["C02"],
             rule: "Each evaluation is one seeded history biased towards \
@@ -68,7 +68,7 @@ pub fn specs() -> Vec<PropSpec> {
         },
         PropSpec {
             id: "C03",
-            parts: &[("c03", 480, 6000)],
+            parts: &[("c03", 480, 6000), ("netfaults", 64, 2000)],
             level: "exploration",
             tags: &["C03"],
             rule: "Each evaluation is one seeded history biased towards \
